@@ -42,6 +42,10 @@ func main() {
 		exitHook = func() { pprof.StopCPUProfile(); f.Close() }
 	}
 	switch os.Args[1] {
+	case "replay":
+		rc := cmdReplay(os.Args[2:])
+		exitHook()
+		os.Exit(rc)
 	case "check":
 		rc := cmdCheck(os.Args[2:])
 		exitHook()
@@ -586,4 +590,77 @@ func writeEvidence(pf *PropFile, tier string, seed int, evs []harnessEvidence, s
 	os.MkdirAll(evDir, 0o755)
 	b, _ := json.MarshalIndent(ev, "", " ")
 	os.WriteFile(filepath.Join(evDir, pf.Property+".json"), b, 0o644)
+}
+
+
+// cmdReplay re-executes a recorded counterexample (replays/<id>/<harness>-<n>.json) against /repo's current
+// working tree: concretely through the executor (same harness, inputs and scheduler decisions fixed) and, for
+// harnesses with native replay, through go test on the native build. Exit 1 = reproduced, 0 = not reproduced.
+func cmdReplay(args []string) int {
+	if len(args) < 1 {
+		fmt.Println("usage: gosym replay <replay.json>")
+		return 2
+	}
+	b, err := os.ReadFile(args[0])
+	if err != nil {
+		fmt.Println("INCONCLUSIVE:", err)
+		return 2
+	}
+	var ro replayOut
+	if err := json.Unmarshal(b, &ro); err != nil {
+		fmt.Println("INCONCLUSIVE: bad replay file:", err)
+		return 2
+	}
+	pb, err := os.ReadFile(filepath.Join(verifDir(), "harness", ro.Property, "harness.json"))
+	if err != nil {
+		fmt.Println("INCONCLUSIVE:", err)
+		return 2
+	}
+	var pf PropFile
+	if err := json.Unmarshal(pb, &pf); err != nil {
+		fmt.Println("INCONCLUSIVE: bad harness.json:", err)
+		return 2
+	}
+	w, err := loadWorld(&pf)
+	if err != nil {
+		fmt.Println("INCONCLUSIVE: cannot load /repo with harness overlay:", err)
+		return 2
+	}
+	for _, hc := range pf.Harnesses {
+		if hc.Name != ro.Harness {
+			continue
+		}
+		cfg := hc.withTier("quick")
+		if ro.Params != nil {
+			cfg.Params = ro.Params
+		}
+		if err := w.setIntercepts(cfg); err != nil {
+			fmt.Println("INCONCLUSIVE:", err)
+			return 2
+		}
+		entry := w.findFunc(repoMod+"/"+cfg.Pkg, cfg.Entry)
+		if entry == nil {
+			fmt.Println("INCONCLUSIVE: entry not found")
+			return 2
+		}
+		v := &Violation{Kind: ro.Kind, Msg: ro.Msg, Model: ro.Model, Sched: ro.Sched}
+		ok, detail := selfReplay(w, cfg, entry, v)
+		if !ok {
+			fmt.Printf("NOT REPRODUCED property=%s harness=%s: %s\n", ro.Property, ro.Harness, detail)
+			return 0
+		}
+		status := "self-replay"
+		if cfg.Replay == "native" {
+			okN, out := nativeReplay(&pf, cfg, v, args[0])
+			if !okN {
+				fmt.Printf("NOT REPRODUCED natively property=%s harness=%s\n%s\n", ro.Property, ro.Harness, tail(out, 20))
+				return 0
+			}
+			status = "self-replay and native replay"
+		}
+		fmt.Printf("REPRODUCED (%s) property=%s harness=%s kind=%s msg=%q\n  inputs: %v\n  scheduler decisions: %v\n", status, ro.Property, ro.Harness, ro.Kind, ro.Msg, ro.Model, ro.Sched)
+		return 1
+	}
+	fmt.Println("INCONCLUSIVE: harness", ro.Harness, "not found")
+	return 2
 }
